@@ -1,6 +1,7 @@
 import FqModel.Proto
 import FqModel.Total
 import FqModel.Total2
+import FqModel.Total3
 /-! driver for C13 — "every function fq adds is total over jq values"
 
   `call <name>/<arity> <V input> <V arg>*` TAB `<class>`
@@ -16,6 +17,8 @@ import FqModel.Total2
   `asciiw|hexpw <width> <start> <l,l,…|l,…>` TAB `ok <bytes written> <len buf>` | `panic`   the dump's column writers
   `optsfmt <V>` TAB `ok <size prefix|->` | `err` | `panic`       the bits format closure it returns, run
   `linecol <V string> n:<offset>` TAB `ok <line> <column>` | `panic`              internal/pos NewFromOffset
+  `dumprange <nbytes> <startBit> <sizeBits> <V opts>` TAB `ok <bytes shown> <address lines> <start offset>` | `err` | `panic`
+        the real hexdump on a bit range, read back from its text; model = dumpRange (FqModel/Total3.lean)
 
   V is the token grammar of harness/cmd/c13/pool.go.
 -/
@@ -68,8 +71,19 @@ def parseScalar (t : String) : Option JV :=
   else if t.startsWith "bin:" then
     match (t.drop 4).toString.splitOn "/" with
     | [_, nb, u] => do
-      let nb ← nb.toNat?; let u ← u.toInt?
-      pure (.bin nb u)
+      -- `…/<unit>@<s>:<e>`: the slice .[s:e] of that binary — a binary of (e-s)·unit bits whose
+      -- range starts at bit s·unit of the reader (binSliceOf gives the start)
+      match u.splitOn "@" with
+      | [u] =>
+        let nb ← nb.toNat?; let u ← u.toInt?
+        pure (.bin nb u)
+      | [u, se] =>
+        match se.splitOn ":" with
+        | [a, b] => do
+          let u ← u.toNat?; let a ← a.toNat?; let b ← b.toNat?
+          pure (.bin ((b - a) * u) u)
+        | _ => none
+      | _ => none
     | _ => none
   else none
 
@@ -124,6 +138,24 @@ partial def normalizeNumbers : JV → JV
   | .arr l => .arr (l.map normalizeNumbers)
   | .obj kv => .obj (kv.map fun (k, v) => (k, normalizeNumbers v))
   | v => v
+
+/-- (bits of the reader, first bit of the binary's range) of a `bin:` token: (nbits, 0) for a whole
+    binary, (nbits, s·unit) for the slice form `…@s:e` -/
+def binBufStart (t : String) : Option (Nat × Nat) :=
+  if t.startsWith "bin:" then
+    match (t.drop 4).toString.splitOn "/" with
+    | [_, nb, u] =>
+      match u.splitOn "@" with
+      | [_] => nb.toNat?.map fun nb => (nb, 0)
+      | [u, se] =>
+        match se.splitOn ":" with
+        | [a, _] => do
+          let nb ← nb.toNat?; let u ← u.toNat?; let a ← a.toNat?
+          pure (nb, a * u)
+        | _ => none
+      | _ => none
+    | _ => none
+  else none
 
 /-- bytes of a `bin:<hex>/…` token (the bits a binary holds) -/
 def binBytes (t : String) : Option (List Nat) :=
@@ -277,24 +309,44 @@ def predIntdiv (a b : JV) : Pred :=
     | _ => exactCls "panic"
   | _, _ => noPanic
 
-def predToBits (c opts : JV) : Pred :=
-  match castToBitsOpts opts with
+/-- the length in bits of the input of `_tobits` as toBinary sees it (binary.go:31-42): none = the
+    token does not carry it (decode values; the content of a huge string is cut by the parser but
+    its length is in the token) -/
+def inputBits (tok : String) (c : JV) : Option (Outcome Nat) :=
+  if (tok.splitOn "dv:").length > 1 then none
+  else if tok.startsWith "S:" then
+    match (tok.drop 2).toString.splitOn ":" with
+    | [n, _] => n.toNat?.map fun n => .ok (8 * n)
+    | _ => none
+  else if (tok.splitOn "S:").length > 1 then none
+  else some (toBitReader 0 false c)
+
+/-- `_tobits` from the casts to the returned binary (FqModel/Total3.lean toBitsFull): class, and the
+    length / unit of the result -/
+def predToBitsFull (tok : String) (c : JV) (o : Option ToBitsOpts) (keep : Bool) : Pred :=
+  match o with
   | none => exactCls "err"
   | some o =>
-    match convertible c with
-    | some false => exactCls "err"
-    | _ =>
-      -- an array may still fail on a member: an error either way
-      match toBits 24 o with
+    match inputBits tok c with
+    | none =>
+      -- a decode value: its length is not in the token; every outcome but a fault
+      if convertible c == some false then exactCls "err" else noPanic
+    | some (.ok len) =>
+      match toBitsFull len o keep with
+      | .ok r => { classes := ["ok"], value := some s!"?binary[{r.len}/{r.unit}]" }
       | .err _ => exactCls "err"
-      | .panic _ => if convertible c == none then { classes := ["err", "panic"] } else exactCls "panic"
-      | _ => noPanic
+      | .panic _ => exactCls "panic"
+      | .resource _ => exactCls "resource"
+    | some (.err _) => exactCls "err"
+    | some (.panic _) => exactCls "panic"
+    | some (.resource _) => exactCls "resource"
+
+def predToBits (tok : String) (c opts : JV) : Pred :=
+  predToBitsFull tok c (castToBitsOpts opts) (keepRangeOf opts)
 
 /-- `tobits($pad)` / `tobytes($pad)` = `_tobits({unit: 1|8, keep_range: false, pad_to_units: $pad})` -/
-def predToBitsPad (c pad : JV) : Pred :=
-  match fieldInt 0 (some pad) with
-  | none => exactCls "err"
-  | some _ => if convertible c == some false then exactCls "err" else noPanic
+def predToBitsPad (unit : Int) (tok : String) (c pad : JV) : Pred :=
+  predToBitsFull tok c ((fieldInt 0 (some pad)).map fun p => ⟨unit, p⟩) false
 
 def indentErrOr (dflt : Int) (opts : JV) (outOfRange : Int → Bool) : Pred :=
   match castIndentOpts dflt opts with
@@ -349,10 +401,10 @@ def gojqToInt (v : JV) : Option Int :=
 def bitsOfBytes (bs : List Nat) : Nat := bs.foldl (fun acc b => acc * 256 + b) 0
 
 def predIndex (ctok : String) (c i : JV) : Pred :=
-  match c, binBytes ctok, gojqToInt i with
-  | .bin nbits unit, some bytes, some ix =>
+  match c, binBytes ctok, gojqToInt i, binBufStart ctok with
+  | .bin nbits unit, some bytes, some ix, some (bufBits, startBit) =>
     if unit ≤ 0 then noPanic else
-    match binIndex nbits unit ix with
+    match binIndexAt bufBits startBit nbits unit ix with
     | .ok none => { classes := ["ok"], value := some "null" }
     | .ok (some (start, n)) =>
       let total := bytes.length * 8
@@ -362,23 +414,23 @@ def predIndex (ctok : String) (c i : JV) : Pred :=
     | .err _ => exactCls "err"
     | .panic _ => exactCls "panic"
     | .resource _ => exactCls "resource"
-  | _, _, _ => noPanic
+  | _, _, _, _ => noPanic
 
-def predSlice (c s e : JV) : Pred :=
+def predSlice (ctok : String) (c s e : JV) : Pred :=
   let bound (v : JV) : Option (Option Int) :=       -- null = open end
     match v with
     | .null => some none
     | _ => (gojqToInt v).map some
-  match c, bound s, bound e with
-  | .bin nbits unit, some s, some e =>
+  match c, bound s, bound e, binBufStart ctok with
+  | .bin nbits unit, some s, some e, some (bufBits, startBit) =>
     if unit ≤ 0 then noPanic else
     let l := (nbits : Int).tdiv unit
-    match binSlice nbits unit (s.getD 0) (e.getD l) with
+    match binSliceAt bufBits startBit nbits unit (s.getD 0) (e.getD l) with
     | .ok (_, n) => { classes := ["ok"], value := some s!"?binary[{n}/{unit}]" }
     | .err _ => noPanic        -- the range is only checked when the slice is read
     | .panic _ => exactCls "panic"
     | .resource _ => exactCls "resource"
-  | _, _, _ => noPanic
+  | _, _, _, _ => noPanic
 
 /-- `@bytecolor/1`: input = a byte_colors array whose values are among the four the driver knows,
     argument = a byte; the model picks the last entry with a covering (clamped) range -/
@@ -588,9 +640,9 @@ def predict (fn : String) (toks : List String) (vs : List JV) : Option Pred :=
   | "to_radix/1", [c, b] => some (predToRadix c b)
   | "from_radix/1", [c, b] => some (predFromRadix c b)
   | "intdiv/2", [_, a, b] => some (predIntdiv a b)
-  | "_tobits/1", [c, o] => some (predToBits c o)
-  | "tobits/1", [c, p] => some (predToBitsPad c p)
-  | "tobytes/1", [c, p] => some (predToBitsPad c p)
+  | "_tobits/1", [c, o] => some (predToBits (toks.headD "") c o)
+  | "tobits/1", [c, p] => some (predToBitsPad 1 (toks.headD "") c p)
+  | "tobytes/1", [c, p] => some (predToBitsPad 8 (toks.headD "") c p)
   | "_to_toml/1", [c, o] => some (predToTOML c o)
   | "to_toml/1", [c, o] => some (predToTOML c o)
   | "to_xml/1", [c, o] => some (predToXML c o)
@@ -599,7 +651,7 @@ def predict (fn : String) (toks : List String) (vs : List JV) : Option Pred :=
   | "_to_yaml/1", [_, o] => some (predToYAML o)
   | "to_yaml/1", [_, o] => some (predToYAML o)
   | "@index/1", [c, i] => some (predIndex (toks.headD "") c i)
-  | "@slice/2", [c, s, e] => some (predSlice c s e)
+  | "@slice/2", [c, s, e] => some (predSlice (toks.headD "") c s e)
   | "@bytecolor/1", [c, b] => some (predByteColor c b)
   | _, _ => predict2 fn toks vs
 
@@ -808,6 +860,24 @@ def linecolVerdict (stok otok obs : String) : String :=
     verdict model obs
   | _, _ => "BADOP token"
 
+/-- `dumprange nbytes startBit sizeBits V`: the real hexdump, read back from its text -/
+def dumprangeVerdict (sn ss sz tok obs : String) : String :=
+  match sn.toNat?, ss.toInt?, sz.toInt?, parseTok tok with
+  | some nbytes, some startBit, some sizeBits, some v =>
+    if obs == "panic" then "PROPFAIL hexdump-panics" else
+    let o := optionsFromValue (normalizeNumbers v)
+    let model := match dumpRange (8 * nbytes) startBit sizeBits o.displayBytes o.lineBytes with
+      | .ok r =>
+        -- bitio.BitsByteCount of the bits read; the first address line is always printed
+        let shown := (r.reqBits + 7) / 8
+        let lines := if r.addrLines < 1 then 1 else r.addrLines
+        s!"ok {shown} {lines} {if shown == 0 then 0 else r.startLineByteOffset}"
+      | .err _ => "err"
+      | .panic _ => "panic"
+      | .resource _ => "resource"
+    verdict model obs
+  | _, _, _, _ => "BADOP token"
+
 def stepC13 (op obs : String) : String :=
   match words op with
   | "call" :: fn :: toks => if toks.isEmpty then "BADOP call" else callVerdict fn toks obs
@@ -816,6 +886,7 @@ def stepC13 (op obs : String) : String :=
   | ["optsfmt", tok] => optsfmtVerdict tok obs
   | ["preview", stok, ltok] => previewVerdict stok ltok obs
   | ["linecol", stok, otok] => linecolVerdict stok otok obs
+  | ["dumprange", sn, ss, sz, tok] => dumprangeVerdict sn ss sz tok obs
   | ["asciiw", w, st, ch] => writerVerdict "asciiw" w st ch obs
   | ["hexpw", w, st, ch] => writerVerdict "hexpw" w st ch obs
   | _ => "BADOP op"
